@@ -7,10 +7,12 @@ package app
 // is run to quiescence under the vrt scheduler and the invariants are evaluated on the real state.
 
 import (
+	"bytes"
 	"context"
 	"crypto/sha1"
 	"encoding/binary"
 	"fmt"
+	"github.com/Eyevinn/mp4ff/mp4"
 	"os"
 	"path/filepath"
 	"sort"
@@ -49,6 +51,15 @@ type c17Src struct {
 	tfdtV     []int
 	trex      vref.Trex
 	payloadOf map[string]int // sha1 of mdat payload -> k (filled while synthesising)
+	chunks    int            // > 1: every media segment is uploaded as this many moof/mdat pairs in one request
+}
+
+// chunked returns a copy whose media segments are split into n fragments (low-latency ingest sends one segment as
+// several chunks in one request).
+func (s *c17Src) chunked(n int) *c17Src {
+	c := *s
+	c.chunks = n
+	return &c
 }
 
 // aligned returns a copy whose numbering agrees with the decode times (sequence number =
@@ -94,6 +105,64 @@ func c17Prepare(tr *rTrack) (*c17Src, error) {
 // seg synthesises media segment k: the bundled segment k mod 6 with sequence number and decode
 // time rewritten.
 func (s *c17Src) seg(k int) []byte {
+	b := s.seg1(k)
+	if s.chunks > 1 {
+		if c, err := c17Split(s.tr.init, b, s.chunks); err == nil {
+			return c
+		}
+	}
+	return b
+}
+
+// c17Split re-packages a one-fragment segment as n fragments (same samples, same styp); the 4-byte stamp in the
+// last mdat box is kept.
+func c17Split(initRaw, segRaw []byte, n int) ([]byte, error) {
+	stamp := []byte(nil)
+	if m := c17Mdat(segRaw); len(m) == 4 {
+		stamp = append(stamp, m...)
+		segRaw = append([]byte{}, segRaw[:len(segRaw)-4]...)
+		binary.BigEndian.PutUint32(segRaw[len(segRaw)-8:], 8)
+	}
+	fi, err := mp4.DecodeFile(bytes.NewReader(initRaw))
+	if err != nil || fi.Init == nil {
+		return nil, fmt.Errorf("init: %v", err)
+	}
+	f, err := mp4.DecodeFile(bytes.NewReader(segRaw))
+	if err != nil || len(f.Segments) == 0 || len(f.Segments[0].Fragments) != 1 {
+		return nil, fmt.Errorf("segment: %v", err)
+	}
+	src := f.Segments[0]
+	fr := src.Fragments[0]
+	fss, err := fr.GetFullSamples(fi.Init.Moov.Mvex.Trex)
+	if err != nil || len(fss) < n {
+		return nil, fmt.Errorf("samples: %v (%d)", err, len(fss))
+	}
+	out := mp4.NewMediaSegment()
+	out.Styp = src.Styp
+	per := (len(fss) + n - 1) / n
+	for i := 0; i < len(fss); i += per {
+		nf, err := mp4.CreateFragment(fr.Moof.Mfhd.SequenceNumber, fr.Moof.Traf.Tfhd.TrackID)
+		if err != nil {
+			return nil, err
+		}
+		out.AddFragment(nf)
+		for j := i; j < i+per && j < len(fss); j++ {
+			nf.AddFullSample(fss[j])
+		}
+	}
+	var buf bytes.Buffer
+	if err := out.Encode(&buf); err != nil {
+		return nil, err
+	}
+	b := buf.Bytes()
+	if stamp != nil && string(b[len(b)-4:]) == "mdat" && binary.BigEndian.Uint32(b[len(b)-8:]) == 8 {
+		binary.BigEndian.PutUint32(b[len(b)-8:], 12)
+		b = append(b, stamp...)
+	}
+	return b, nil
+}
+
+func (s *c17Src) seg1(k int) []byte {
 	i := k % len(s.tr.segs)
 	b := append([]byte{}, s.tr.segs[i]...)
 	binary.BigEndian.PutUint32(b[s.mfhdOff[i]:], s.seq0+uint32(k))
@@ -584,8 +653,19 @@ func TestVerifC17(t *testing.T) {
 		if !quick {
 			sets = append(sets, setT{[]string{v, a, tx}, 3}, setT{[]string{v, v2, a}, 3}, setT{[]string{v, a}, 7})
 		}
+		if mode == "aligned" {
+			sets = append(sets, setT{[]string{v, a}, -4}) // M < 0: the same with every media segment sent as two chunks
+		}
 		for _, st := range sets {
 			ck := &c17Check{rep: rep, srcs: srcs, W: W, mode: mode}
+			if st.M < 0 {
+				st.M = -st.M
+				cs := map[string]*c17Src{}
+				for n, s := range srcs {
+					cs[n] = s.chunked(2)
+				}
+				ck.srcs = cs
+			}
 			var seqs [][]c17Op
 			for _, tn := range st.tracks {
 				q := []c17Op{{tn, -1}}
